@@ -103,6 +103,48 @@ Theorem C10_save_restart_keeps :
 Proof. exact save_restart_keeps. Qed.
 Print Assumptions C10_save_restart_keeps.
 
+(* a change the system password command refuses (PATCH /device answers 500) changes nothing: hashes and persisted record *)
+Theorem C10_refused_change_changes_nothing :
+  forall sha256hex ops u pw,
+    run sha256hex init_state (ops ++ api_ops (APatchRefused u pw)) = run sha256hex init_state ops.
+Proof. exact refused_patch_no_change. Qed.
+Print Assumptions C10_refused_change_changes_nothing.
+
+(* PUT /device (backup restore: reset preserving the hashes, load, save) keeps the three hashes AND persists them again *)
+Theorem C10_put_keeps_hashes :
+  forall sha256hex st a n v,
+    cur st = {| h_admin := Some a; h_normal := Some n; h_viewonly := Some v |} -> a <> "" -> n <> "" -> v <> "" ->
+    let st' := run sha256hex st (api_ops APut) in cur st' = cur st /\ store st' = Some (cur st).
+Proof. exact put_keeps_hashes. Qed.
+Print Assumptions C10_put_keeps_hashes.
+
+(* THE SLAVE SIDE.  After any sequence of successful forwarded PATCH /device requests the hash the hub keeps for a slave
+   is the hash of the slave's current admin password (the empty password included) ... *)
+Theorem C10_slave_hash_tracks :
+  forall sha256hex sops pw0, hub_slave_hash sha256hex pw0 sops = sha256hex (slave_password pw0 sops).
+Proof. exact slave_hash_tracks. Qed.
+Print Assumptions C10_slave_hash_tracks.
+
+(* ... so a header the hub issues for the slave with that hash is accepted by the slave (same rules, admin level), and the
+   slave-events endpoint, which verifies with that hash, accepts exactly tokens signed with the slave's current hash
+   (C10_parse_sound with hash_func = fun _ => Some (hub_slave_hash ...)) *)
+Theorem C10_slave_accepts_hub_header :
+  forall mac decode skew sha256hex, (forall pw, sha256hex pw <> "") ->
+  forall sops pw0 t8 t8' hdr,
+    issuedb mac decode "consumer" (Some "admin") (hub_slave_hash sha256hex pw0 sops) (issue_iat t8) hdr = true ->
+    - (8 * skew) <= t8' - t8 <= 8 * skew - 7 ->
+    parse_auth_header mac decode skew t8' hdr "consumer"
+      (fun u => if jeq_str u "admin" then Some (sha256hex (slave_password pw0 sops)) else None) true
+    = RGrant (Some (JStr "admin")).
+Proof. exact slave_accepts_hub_header. Qed.
+Print Assumptions C10_slave_accepts_hub_header.
+
+(* GET /devices shows "set"/"" for a slave's password attributes, also while a new password waits to be provisioned *)
+Theorem C10_slave_doc_bit_only :
+  forall pending bit, bit = "" \/ bit = "set" -> slave_doc_pw pending bit = "" \/ slave_doc_pw pending bit = "set".
+Proof. exact slave_doc_bit_only. Qed.
+Print Assumptions C10_slave_doc_bit_only.
+
 (* after a password change only the new password authenticates, also after a restart *)
 Theorem C10_only_current_password :
   forall mac decode skew sha256hex, (forall pw, sha256hex pw <> "") ->
